@@ -12,6 +12,7 @@ from __future__ import annotations
 import hashlib
 import json
 import os
+import shutil
 import random
 import subprocess
 import sys
@@ -90,6 +91,17 @@ class Ctx:
         self.inconclusive: list[str] = []
         self.info: dict[str, Any] = {}
         self.quick = tier == "quick"
+        self.claim_dir: str | None = None  # set for shard processes: trials are handed out first come, first served
+
+    def claim(self, trial: int) -> bool:
+        """True for exactly one shard per trial number (shards that finish early take what is left)."""
+        if self.claim_dir is None:
+            return trial % self.nshards == self.shard
+        try:
+            os.close(os.open(os.path.join(self.claim_dir, str(trial)), os.O_CREAT | os.O_EXCL | os.O_WRONLY))
+            return True
+        except FileExistsError:
+            return False
 
     # -- recording -----------------------------------------------------------------
     def ev(self, n: int = 1) -> None:
@@ -212,6 +224,8 @@ def run_parent(mod: Any, tier: str, seed: int) -> int:
         elif rc is not None:
             total.inconclusive_because(f"shard {i} exited rc={rc} without a result")
 
+    shutil.rmtree(scratch / f"{pid}-{tier}-{seed}-{os.getpid()}.claims", ignore_errors=True)
+
     if hasattr(mod, "finalize"):
         mod.finalize(total)
 
@@ -290,6 +304,8 @@ def run_parent(mod: Any, tier: str, seed: int) -> int:
 def run_shard(mod: Any, tier: str, seed: int, shard: int, nshards: int, out: str) -> int:
     bind_repo()
     ctx = Ctx(mod.PID, tier, seed, shard, nshards)
+    ctx.claim_dir = out.rsplit("-", 2)[0] + f"-{os.getppid()}.claims"
+    os.makedirs(ctx.claim_dir, exist_ok=True)
     try:
         mod.run(ctx)
     except BaseException as err:  # harness failure: never a verdict about the library
